@@ -9,9 +9,17 @@ use crate::{
 use fmt::Debug;
 use rusty_pool::ThreadPool;
 use std::sync::{Arc, Mutex};
+#[cfg(not(kani))]
 use std::thread::JoinHandle;
+#[cfg(kani)]
+use crate::verif_kani::rt::thread::JoinHandle;
 use std::time::{Duration, Instant};
+#[cfg(not(kani))]
 use std::{fmt, thread};
+#[cfg(kani)]
+use std::fmt;
+#[cfg(kani)]
+use crate::verif_kani::rt::thread;
 
 use crate::iterator::{StateIterator, StateIteratorSubscriber};
 use crate::store::{Store, StoreError, DEFAULT_CAPACITY, DEFAULT_STORE_NAME};
